@@ -1,5 +1,7 @@
 import Vflow.Proofs.V5Round
 import Vflow.Proofs.JsonTree
+import Vflow.Gen.Sites
+import Vflow.Spec.Sites
 /-!
 # C08 — NetFlow v5 is decoded field for field (and published as such)
 
@@ -209,5 +211,10 @@ example : V5.marshal (ipBytes [192, 0, 2, 1]) ⟨exHeader, [exFlow], none⟩ =
       "m\":64500,\"DstAsNum\":64501,\"SrcMask\":24,\"",
       "DstMask\":24,\"Padding2\":0}]}"] := by
   decide +kernel
+
+/-- **Tie (control-flow skeleton)**: every branch / loop condition, switch case and `break` / `continue` of the
+sources this model mirrors, re-extracted on every run, is exactly the reviewed inventory in `Spec/Sites.lean`
+(which names the model clause of each).  A changed bound, a new or dropped branch breaks this obligation. -/
+theorem guards_reviewed : Gen.Sites.guardsV5 = Spec.Sites.guardsV5 := by decide +kernel
 
 end Vflow.C08
